@@ -46,7 +46,11 @@ def extract_constants():
     rc, out, err = run([sys.executable, os.path.join(ROOT, "tools", "extract.py")])
     if rc != 0:
         return False, (out + err).strip()
-    return True, out.strip()
+    # lock-order graph and rank certificate (C20), regenerated from the source as well
+    rc2, out2, err2 = run([sys.executable, os.path.join(ROOT, "tools", "extract_locks.py")])
+    if rc2 != 0:
+        return False, (out2 + err2).strip()
+    return True, out.strip() + "; " + out2.strip()
 
 
 def lake_build(targets):
@@ -174,6 +178,19 @@ def gen_ops(stream, seed, cases):
     if rc != 0:
         raise RuntimeError("vh gen failed: " + err[:2000])
     return out.splitlines()
+
+
+def keep_ops(cfg, lines):
+    """a property that shares a stream with a sister property keeps only its own op kinds"""
+    ops = cfg.get("ops")
+    if not ops:
+        return lines
+    out = []
+    for l in lines:
+        t = l.split()
+        if l.startswith("#") or (len(t) > 1 and t[1] in ops):
+            out.append(l)
+    return out
 
 
 def run_impl(lines, timeout=3600):
@@ -462,7 +479,7 @@ def main():
         ncases = a.cases or cfg["cases"][tier]
         lines = corpus_lines(pid)
         for st in cfg.get("streams", [cfg["stream"]]):
-            lines += gen_ops(st, seed, ncases)
+            lines += keep_ops(cfg, gen_ops(st, seed, ncases))
         impl, e1 = run_impl(lines)
         model, e2 = run_model(lines)
         if e1:
@@ -506,7 +523,7 @@ def main():
             key = d["op"].split()[1] if len(d["op"].split()) > 1 else ""
             extra = []
             for st in cfg.get("streams", [cfg["stream"]]):
-                extra += gen_ops(st, seed + 7919, ncases * (20 if tier == "thorough" else 4))
+                extra += keep_ops(cfg, gen_ops(st, seed + 7919, ncases * (20 if tier == "thorough" else 4)))
             im2, _ = run_impl(extra)
             mo2, _ = run_model(extra)
             st2 = compare(pid, cfg, extra, im2, mo2, findings)
